@@ -234,6 +234,17 @@ def run(rep):
                 pv = list(E.holes(p['val']).values())
                 okp = same_loop and pv == [step]
                 detail = f'pushed in loops {[lp[0] for lp in p["loops"]]} with {[E.show(x, maxdepth=5) for x in pv]}'
+        if not okp:
+            # iterator-chain form: a repetition over the same list whose body is the parameter template with the same identifier
+            ps = []
+            E.walk(ht, lambda x: ps.append(x) if x[0] == 'star' and x is not l and E.find_templates(x[3], lambda y: ': wgpu :: VertexStepMode' in E.tmpl_text(y)) else None)
+            for p_ in ps:
+                pts = E.find_templates(p_[3], lambda y: ': wgpu :: VertexStepMode' in E.tmpl_text(y))
+                pv = list(E.holes(pts[0]).values())
+                stepr = E.Interp.rename_elem(None, step, l[2], p_[2])
+                if same_star(p_, l) and pv == [stepr]:
+                    okp = True
+                    detail = 'repetition over the same argument list'
         rep.check(okp, 'C07.D.step-mode-params', 'step-mode-params', w2,
                   f'step-mode parameters are not declared by the same iteration (same order, same identifier) as the layout expressions: {detail}',
                   ok_detail='one `p: wgpu::VertexStepMode` per layout expression, same iteration')
